@@ -832,6 +832,11 @@ class SequentialContext:
         # associated std.SequentialContext
         cpy = self.copy()
 
+        if on_reset is None:
+            # fall back to the actions registered when the context was created
+            # (constructor argument, with_params or std.sequential(clk, ..., on_reset=...))
+            on_reset = cpy._on_reset
+
         if attributes is None:
             attributes = cpy._attributes
         elif cpy._attributes is not None:
